@@ -504,6 +504,7 @@ void vf_harness(void) {
                 bool more;
                 CALL(more = t->getnext(t, &c, nm));
                 if (!more) break;
+                VF_ASSERT(c.name != NULL && (c.data != NULL || c.datasize == 0), "C15.tree.walk.copies: a walk step that returns true delivers its copies (allocation failure is reported, not hidden)");
                 VF_ASSERT(cnt < imn, "C03.walk.count: the walk returns no more results than there are keys");
                 if (cnt < imn) {
                     VF_ASSERT(c.namesize == iklen[cnt] && bytes_eq(c.name, ikey[cnt], iklen[cnt]), "C03.walk.order: the walk returns the keys in strictly ascending order, each exactly once");
@@ -559,6 +560,7 @@ void vf_harness(void) {
         for (size_t j = 0; j < MM; j++)
             if (j < imn && ord(ikey[j], iklen[j], opk, VF_OPKSZ) <= 0) want = (long)j;
         if (want < 0 && imn > 0) want = 0;
+        if (vf_alloc_failed) VF_ASSERT(r.name != NULL || r.data == NULL, "C15.tree.nearest.copies: a failed copy is reported with an empty object, nothing half-delivered");
         if (imn == 0) {
             VF_ASSERT(r.name == NULL, "C04.nearest.empty: nearest-key search on an empty table reports not-found");
         } else if (!vf_alloc_failed) {
